@@ -11,7 +11,7 @@ import common
 import gen
 
 LEVEL = "other"
-POPS = {"quick": 8, "thorough": 200}
+POPS = {"quick": 8, "thorough": 100}
 SIZE = {"quick": 20000, "thorough": 50000}
 ALPHA = 1e-9
 
@@ -90,7 +90,9 @@ def run(ctx):
     stats = []
     for k in range(POPS[ctx.tier]):
         fam = families[k % len(families)]
-        ws = choicelib.weight_vector(rng, rng.choice(["int-small", "two", "mixed", "equal"]))[:8]
+        ws = choicelib.weight_vector(rng, ["int-small", "decimal", "mixed", "two", "decimal", "equal", "mixed", "int"][k % 8])[:8]
+        if k % 8 == 1:
+            ws = rng.choice([["0.5", "0.5"], ["0.25", "0.25", "0.5"], ["1.5", "2.5"], ["0.1", "0.2", "0.7"]])
         if sum(gen.weight_fraction(w) for w in ws) == 0:
             ws = ["1", "1"]
         salts = ["salt_%d" % rng.randrange(10 ** 6), "other_%d" % rng.randrange(10 ** 6)]
